@@ -540,6 +540,34 @@ func (ec *evalCtx) index(x *CIdx) (TV, error) {
 
 func (ec *evalCtx) unary(x *CUn) (TV, error) {
 	c := ec.c
+	if x.Op == "&" {
+		// &local: the address the code itself has taken of that local (one address per local cell);
+		// only meaningful after the code passed it somewhere
+		id, ok := x.X.(*CIdent)
+		if !ok || ec.fr == nil {
+			return TV{}, fmt.Errorf("& is only supported on a local variable")
+		}
+		for f := ec.fr; f != nil; f = f.parent {
+			for _, b := range f.fn.Blocks {
+				for _, in := range b.Instrs {
+					if a, ok := in.(*ssa.Alloc); ok && a.Comment == id.Name && !f.heapCell[a] {
+						if p, ok := f.addrCache[f.cellKey(a)]; ok {
+							return TV{T: p, Ty: a.Type()}, nil
+						}
+					}
+					if a, ok := in.(*ssa.Alloc); ok && a.Comment == id.Name && f.heapCell[a] {
+						if v, ok := f.env[a]; ok && len(v.T) == 1 {
+							return TV{T: v.T[0], Ty: a.Type()}, nil
+						}
+					}
+				}
+			}
+			if f.fn.Parent() == nil {
+				break
+			}
+		}
+		return TV{}, missingSiteErr{fmt.Sprintf("the address of %s has not been taken yet", id.Name)}
+	}
 	v, err := ec.eval(x.X)
 	if err != nil {
 		return TV{}, err
